@@ -18,7 +18,7 @@ INSTANCE PaletteOps
 Foreground == 65535
 GlyphColor ==
     [v : 0..(NRgb - 1), a : Alphas, idx : {NoIdx} \cup (0..MaxIdx), cur : {FALSE}]
-      \cup [v : {0}, a : Alphas, idx : {NoIdx}, cur : {TRUE}]
+      \cup [v : {0}, a : Alphas, idx : {NoIdx} \cup (0..MaxIdx), cur : {TRUE}]    \* var(--colorN, currentColor) is still the foreground
 
 VARIABLES version, colors, phase, paletteIn, palette, layers, outcome
 vars == <<version, colors, phase, paletteIn, palette, layers, outcome>>
